@@ -192,6 +192,7 @@ double *readDoubleData(char *srcFilePath, size_t *nbEle, int *status)
 			daBuf[i] = buf.value;
 		}
 		free(bytes);
+		*status = state;
 		return daBuf;
 	}
 }
@@ -237,6 +238,7 @@ int16_t *readInt16Data(char *srcFilePath, size_t *nbEle, int *status)
 			daBuf[i] = buf.svalue;
 		}
 		free(bytes);
+		*status = state;
 		return daBuf;
 	}
 }
@@ -273,6 +275,7 @@ uint16_t *readUInt16Data(char *srcFilePath, size_t *nbEle, int *status)
 			daBuf[i] = buf.usvalue;
 		}
 		free(bytes);
+		*status = state;
 		return daBuf;
 	}
 }
@@ -309,6 +312,7 @@ int32_t *readInt32Data(char *srcFilePath, size_t *nbEle, int *status)
 			daBuf[i] = buf.ivalue;
 		}
 		free(bytes);
+		*status = state;
 		return daBuf;
 	}
 }
@@ -345,6 +349,7 @@ uint32_t *readUInt32Data(char *srcFilePath, size_t *nbEle, int *status)
 			daBuf[i] = buf.uivalue;
 		}
 		free(bytes);
+		*status = state;
 		return daBuf;
 	}
 }
@@ -381,6 +386,7 @@ int64_t *readInt64Data(char *srcFilePath, size_t *nbEle, int *status)
 			daBuf[i] = buf.lvalue;
 		}
 		free(bytes);
+		*status = state;
 		return daBuf;
 	}
 }
@@ -417,6 +423,7 @@ uint64_t *readUInt64Data(char *srcFilePath, size_t *nbEle, int *status)
 			daBuf[i] = buf.ulvalue;
 		}
 		free(bytes);
+		*status = state;
 		return daBuf;
 	}
 }
@@ -454,6 +461,7 @@ float *readFloatData(char *srcFilePath, size_t *nbEle, int *status)
 			daBuf[i] = buf.value;
 		}
 		free(bytes);
+		*status = state;
 		return daBuf;
 	}
 }
